@@ -297,6 +297,33 @@ Definition rect_cells (r : rect) : list cell :=
 Definition c02_within_pending_checkb (rootid : Z) (pending : list rect) (log : list (Z * rect)) : bool :=
   forallb (fun e => negb (fst e =? rootid) || forallb (in_any pending) (rect_cells (snd e))) log.
 
+(* C14 / C15: what tickit_window_show does to the focus links: the shown window becomes its
+   parent's focused child exactly when the parent has none and the window is flagged focused
+   or has a focused child of its own (hide had unlinked it); a parent that has a focused child
+   keeps it (another window may have taken the focus meanwhile); every other link, every
+   focused flag and the shape of the tree are untouched, the window is visible afterwards *)
+Definition fchild_eqb (a b : option Z) : bool :=
+  match a, b with Some x, Some y => x =? y | None, None => true | _, _ => false end.
+
+Definition show_fchild_spec (id : Z) (before : wtree) (x : Z) (i : winfo) : option Z :=
+  match t_parent_id id before, t_find id before with
+  | Some p, Some w =>
+    if (x =? p) && match w_fchild i with None => true | Some _ => false end &&
+       ((match w_fchild (t_info w) with Some _ => true | None => false end) || w_focused (t_info w))
+    then Some id else w_fchild i
+  | _, _ => w_fchild i
+  end.
+
+Definition c15_show_checkb (id : Z) (before after : wtree) : bool :=
+  zlist_eqb (sub_ids before) (sub_ids after) &&
+  forallb (fun x => match t_find x before, t_find x after with
+                    | Some a, Some b =>
+                      Bool.eqb (w_focused (t_info a)) (w_focused (t_info b)) &&
+                      fchild_eqb (show_fchild_spec id before x (t_info a)) (w_fchild (t_info b)) &&
+                      Bool.eqb (w_vis (t_info b)) (if x =? id then true else w_vis (t_info a))
+                    | _, _ => false
+                    end) (sub_ids before).
+
 (* C15: a flush (which applies the queued restacks) moves no focus: every window keeps its
    focused-child link and its focused flag *)
 Definition c15_links_kept_checkb (before after : wtree) : bool :=
